@@ -13,7 +13,7 @@ Every request carries `"v":[arpLow8, prereqExact, exactSig]`: which of the propo
     → `{"order":[original index…],"eff":[effective priority…],"exact":[is_exact per original entry…],"lookups":[original index | null…],
         "spec":[[matchHdr per original entry…] per frame],"rank":[Spec.rankSig per original entry]}`
 
-* `{"op":"tableops","ops":[["add",id,priority,rec,idle_s,hard_s,now_ms] | ["remove",id] | ["rm_match",rec,priority,strict] |
+* `{"op":"tableops","sm":bool,"ops":[["add",id,priority,rec,idle_s,hard_s,now_ms] | ["remove",id] | ["rm_match",rec,priority,strict] |
      ["expire",now_ms] | ["lookup",P,port],…]}` → `{"trace":[["t",raised,[ids in table order]] | ["l",id|null],…]}`
 
 * `{"op":"selfflow","phdr":P,"port":n|null,"swport":n,"sf":bool,"blank":[1..12]?}` → `{"m":[wildcards, 12 views],"wire":rec,"m2w":wildcards after
@@ -129,6 +129,7 @@ def deadAt (now : Nat) (e : Entry TD) : Bool :=
 
 def doTableOps (j : J) : Except String J := do
   let v ← variantOf j
+  let sm ← j.boolean "sm"            -- strict test of is_matched_by: both-ways encompassing (HEAD) or `==`
   let ops ← j.array "ops"
   let (_, out) ← ops.foldlM (fun (acc : Table TD × List J) oj => do
     let (tbl, out) := acc
@@ -138,19 +139,19 @@ def doTableOps (j : J) : Except String J := do
     | [J.str "add", id, pr, r, idle, hard, now] =>
       let e : Entry TD := { priority := (← pr.asNat), mtch := v.ofWire (← recOf r),
                             data := { id := (← id.asNat), idle := (← idle.asNat), hard := (← hard.asNat), created := (← now.asNat) } }
-      let (t, raised) := TableOps.step v.effectivePriority tbl (.add e)
+      let (t, raised) := TableOps.step v.effectivePriority sm tbl (.add e)
       pure (t, J.arr [J.str "t", jb raised, ids t] :: out)
     | [J.str "remove", id] =>
       let k ← id.asNat
       let i := tbl.findIdx (fun e => e.data.id == k)          -- `tbl.length` when the object is not in the table
-      let (t, raised) := TableOps.step v.effectivePriority tbl (.removeAt i)
+      let (t, raised) := TableOps.step v.effectivePriority sm tbl (.removeAt i)
       pure (t, J.arr [J.str "t", jb raised, ids t] :: out)
     | [J.str "rm_match", r, pr, strict] =>
-      let (t, raised) := TableOps.step v.effectivePriority tbl (.removeMatching (v.ofWire (← recOf r)) (← pr.asNat) (← strict.asBool) (fun _ => true))
+      let (t, raised) := TableOps.step v.effectivePriority sm tbl (.removeMatching (v.ofWire (← recOf r)) (← pr.asNat) (← strict.asBool) (fun _ => true))
       pure (t, J.arr [J.str "t", jb raised, ids t] :: out)
     | [J.str "expire", now] =>
       let n ← now.asNat
-      let (t, raised) := TableOps.step v.effectivePriority tbl (.expire (deadAt n))
+      let (t, raised) := TableOps.step v.effectivePriority sm tbl (.expire (deadAt n))
       pure (t, J.arr [J.str "t", jb raised, ids t] :: out)
     | [J.str "lookup", ph, port] =>
       let hit := (v.entryForPacket tbl (← phdrOf ph) (← port.asNat)).map (·.data.id)
